@@ -73,6 +73,12 @@ def build(spec):
         return d
     if kind == "list":
         return FList([build(v) for _, v in spec["items"]])
+    if kind == "attrdict":                     # the library's default container (attribute and item access in sync)
+        from xdeps.utils import AttrDict
+        d = AttrDict()
+        for k, v in spec["items"]:
+            d[k] = build(v)
+        return d
     o = FObj()
     for k, v in spec["items"]:
         object.__setattr__(o, k, build(v))
